@@ -13,6 +13,80 @@ _DISC = "    def disconnected(self):\n        if not self.closed:\n            s
 _HELPER_BOTH = ("    def _remove_incoming_dirs(self):\n        bucketdir = os.path.dirname(self.incominghome)\n"
                 "        os.rmdir(bucketdir)\n        os.rmdir(os.path.dirname(bucketdir))\n\n")
 
+# the allocate_buckets loop restructured into 'collect the wanted shares, cut the list to what fits, create the
+# writers in a second loop' (the faithful version of seeded refactor C28-I): the paths travel through a list of tuples
+_ALLOC_LOOP = (
+    '        for shnum in sharenums:\n'
+    '            incominghome = os.path.join(self.incomingdir, si_dir, "%d" % shnum)\n'
+    '            finalhome = os.path.join(self.sharedir, si_dir, "%d" % shnum)\n'
+    '            if os.path.exists(finalhome):\n'
+    '                # great! we already have it. easy.\n'
+    '                pass\n'
+    '            elif os.path.exists(incominghome):\n'
+    "                # For Foolscap we don't create BucketWriters for shnums that\n"
+    '                # have a partial share (in incoming/), so if a second upload\n'
+    '                # occurs while the first is still in progress, the second\n'
+    '                # uploader will use different storage servers.\n'
+    '                pass\n'
+    '            elif (not limited) or (remaining_space >= max_space_per_bucket):\n'
+    '                # ok! we need to create the new share file.\n'
+    '                bw = BucketWriter(self, incominghome, finalhome,\n'
+    '                                  max_space_per_bucket, lease_info,\n'
+    '                                  clock=self._clock)\n'
+    '                if self.no_storage:\n'
+    '                    # Really this should be done by having a separate class for\n'
+    '                    # this situation; see\n'
+    '                    # https://tahoe-lafs.org/trac/tahoe-lafs/ticket/3862\n'
+    '                    bw.throw_out_all_data = True\n'
+    '                bucketwriters[shnum] = bw\n'
+    '                self._bucket_writers[incominghome] = bw\n'
+    '                if limited:\n'
+    '                    remaining_space -= max_space_per_bucket\n'
+    '            else:\n'
+    '                # bummer! not enough space to accept this bucket\n'
+    '                pass\n'
+    '\n'
+)
+
+_ALLOC_TWO_PASS = (
+    '        # Work out which of the requested shares need a new BucketWriter. We\n'
+    '        # skip the ones we already have (great! easy), and for Foolscap we\n'
+    "        # also don't create BucketWriters for shnums that have a partial\n"
+    '        # share (in incoming/), so if a second upload occurs while the first\n'
+    '        # is still in progress, the second uploader will use different\n'
+    '        # storage servers.\n'
+    '        wanted = []\n'
+    '        for shnum in sharenums:\n'
+    '            incominghome = os.path.join(self.incomingdir, si_dir, "%d" % shnum)\n'
+    '            finalhome = os.path.join(self.sharedir, si_dir, "%d" % shnum)\n'
+    '            if os.path.exists(finalhome) or os.path.exists(incominghome):\n'
+    '                continue\n'
+    '            wanted.append((shnum, incominghome, finalhome))\n'
+    '\n'
+    '        if limited:\n'
+    '            # every new bucket reserves max_space_per_bucket, so only this\n'
+    '            # many of them fit in what is left. bummer for the rest: not\n'
+    '            # enough space to accept them.\n'
+    '            if max_space_per_bucket > 0:\n'
+    '                wanted = wanted[:max(0, remaining_space // max_space_per_bucket)]\n'
+    '            elif remaining_space < 0:\n'
+    '                wanted = []\n'
+    '\n'
+    '        for (shnum, incominghome, finalhome) in wanted:\n'
+    '            # ok! we need to create the new share file.\n'
+    '            bw = BucketWriter(self, incominghome, finalhome,\n'
+    '                              max_space_per_bucket, lease_info,\n'
+    '                              clock=self._clock)\n'
+    '            if self.no_storage:\n'
+    '                # Really this should be done by having a separate class for\n'
+    '                # this situation; see\n'
+    '                # https://tahoe-lafs.org/trac/tahoe-lafs/ticket/3862\n'
+    '                bw.throw_out_all_data = True\n'
+    '            bucketwriters[shnum] = bw\n'
+    '            self._bucket_writers[incominghome] = bw\n'
+    '\n'
+)
+
 MUTANTS = [
     # ---- C22.1 conflicting writes
     M("conflict-compare-deleted", IMM, _CMP, "", "C22.1"),
@@ -283,5 +357,23 @@ MUTANTS = [
       "            self._remove_incoming_dirs()\n            # we also delete the grandparent", None,
       edits=[(IMM, _DISC, _HELPER_BOTH + _DISC)]),
     # ---- vanished anchor
+    # ---- refactored shape: paths carried from a first loop to the BucketWriter call through a list of tuples
+    M("benign-alloc-two-pass-faithful", SRV, _ALLOC_LOOP, _ALLOC_TWO_PASS, None),
+    M("benign-alloc-two-pass-sorted", SRV, _ALLOC_LOOP,
+      _ALLOC_TWO_PASS.replace("in wanted:", "in sorted(wanted):"), None),
+    M("two-pass-tuple-order-swapped", SRV, _ALLOC_LOOP,
+      _ALLOC_TWO_PASS.replace("wanted.append((shnum, incominghome, finalhome))", "wanted.append((shnum, finalhome, incominghome))"),
+      "C22.2"),
+    M("two-pass-incoming-under-sharedir", SRV, _ALLOC_LOOP,
+      _ALLOC_TWO_PASS.replace("os.path.join(self.incomingdir, si_dir,", "os.path.join(self.sharedir, si_dir, \"incoming\","),
+      "C22.2"),
+    M("two-pass-complete-share-check-dropped", SRV, _ALLOC_LOOP,
+      _ALLOC_TWO_PASS.replace("            if os.path.exists(finalhome) or os.path.exists(incominghome):\n",
+                              "            if os.path.exists(incominghome):\n"), "C22.7"),
+    M("two-pass-check-only-logs", SRV, _ALLOC_LOOP,
+      _ALLOC_TWO_PASS.replace("                continue\n", "                log.msg(\"share %d already here\" % shnum)\n"), "C22.7"),
+    M("two-pass-list-fed-by-extend", SRV, _ALLOC_LOOP,
+      _ALLOC_TWO_PASS.replace("wanted.append((shnum, incominghome, finalhome))", "wanted.extend([(shnum, incominghome, finalhome)])"),
+      "ANALYSIS-ERROR"),
     M("vanish-abort", IMM, "    def abort(self):", "    def abort_upload(self):", "ANALYSIS-ERROR"),
 ]
